@@ -123,8 +123,10 @@ def stage_pbt(pid, stage, tier):
     base = seed_base()
     jobs = []
     for k in range(shards):
-        env = env_for({"RC_PARAMS": "seed=%d max_success=%d max_size=%d max_discard_ratio=50" % (
-            base * 1000 + k + 1, cfg.get("cases", 100), cfg.get("size", 100))})
+        env = env_for({"RC_PARAMS": "seed=%d max_success=%d max_size=%d max_discard_ratio=50%s" % (
+            base * 1000 + k + 1, cfg.get("cases", 100), cfg.get("size", 100),
+            # schedule-dependent stages: a failure is a sample of the thread schedule, shrinking it by re-running is meaningless
+            " noshrink=1" if stage.get("schedule_dependent") else "")})
         env.update(stage.get("env", {}))
         cmd = list(stage.get("wrapper", [])) + [binary, "--" + mode, "--tier", tier, "--stats", os.path.join(wd, "stats-%d.json" % k),
                         "--faildir", os.path.join(wd, "fails-%d" % k)] + list(cfg.get("args", []))
